@@ -731,10 +731,24 @@ impl Property for C13 {
         w.set_rand_seed(sc.rand_seed);
         let hang = Duration::from_millis(default_hang_ms());
         let mut out = Outcome::default();
+        // one checkpointed history in three: the checkpoint carries a pending entry for an uncommitted file which is
+        // edited again afterwards (a stale entry), every target has an uncommitted edit, and the run that is killed
+        // names no targets (it selects the changed ones, i.e. all): a run reads the checkpoint, it never writes it
+        let stale_pending = sc.checkpoint && sc.rand_seed % 3 == 0;
         if sc.checkpoint {
-            let o = w.cli(&["checkpoint", "update"]);
+            if stale_pending {
+                let _ = w.write_file(&format!("{}/pending-note.txt", sc.spec.targets[0].path), "recorded as pending\n");
+            }
+            let o = if stale_pending { w.cli(&["checkpoint", "update", "-p"]) } else { w.cli(&["checkpoint", "update"]) };
             if o.code != Some(0) {
                 return Outcome::skip("checkpoint update failed");
+            }
+            if stale_pending {
+                let _ = w.write_file(&format!("{}/pending-note.txt", sc.spec.targets[0].path), "edited after the update\n");
+                for t in &sc.spec.targets {
+                    let _ = w.write_file(&format!("{}/file.txt", t.path), "edited after the update\n");
+                }
+                out.fault("checkpoint_with_a_stale_pending_entry_and_a_run_that_selects_by_change", 1);
             }
         }
         for (i, st) in sc.prefix.iter().enumerate() {
@@ -757,7 +771,7 @@ impl Property for C13 {
             out.fault("retention_limit_changed_before_the_killed_run", 1);
             out.trace.push(format!("max_retained_runs {} -> {}", sc.spec.max_retained_runs, m));
         }
-        if sc.noop_before_crash && sc.checkpoint {
+        if sc.noop_before_crash && sc.checkpoint && !stale_pending {
             let ns = RunScript { rand_seed: Some(sc.rand_seed), ..RunScript::simple(RunOpts { commands: sc.crash_run.opts.commands.clone(), ..Default::default() }) };
             let tr = drive_run(&mut w, "M1", &ns, hang);
             if tr.hang.is_some() || tr.code() != Some(0) || !tr.helpers.is_empty() {
@@ -798,7 +812,9 @@ impl Property for C13 {
         }
         let s0 = snapshot(&w);
         let mut crash_script = step_script(&sc.crash_run, sc.rand_seed + 50);
-        if crash_script.opts.targets.is_empty() && sc.checkpoint {
+        if stale_pending {
+            crash_script.opts.targets.clear();
+        } else if crash_script.opts.targets.is_empty() && sc.checkpoint {
             crash_script.opts.targets = sc.spec.targets.iter().map(|t| t.path.clone()).collect();
         }
         // step_script's order (a failing child is released last) keeps every status of the run a
